@@ -16,6 +16,9 @@ def concretize(p):
         ps.append(tail)
     params = (" | " + ", ".join(ps)) if ps else ""
     head = f'#[{p["n"]}(D{", Er" if fall else ""}{params})]'
+    if p["dt"] == "enum" and p["tail"] == "ret":
+        # a quick return replaces the whole body: member-level requirements (here: field names for a tuple variant hinted `as {}`) do not apply
+        return head + " enum S { A, #[type_hint(as {})] B(V) }"
     return head + (" struct S { a: V }" if p["dt"] == "struct" else " enum S { A, #[literal(1)] B }" if p["tail"] == "dflt" else " enum S { A }")
 
 
